@@ -9,11 +9,13 @@ RULE = ('sweep (exhaustive): every element id 0..511 x every width 0..9 x versio
         'documented ids (1,2,4..18,21..24,27..32,47,52,54,56..60,62,63,70..72,80,81,88,89,138,139,140,150..159,176..179,197,312) '
         'in random template order with legal widths and random header values (uptime, export time, sequence, domain) from '
         'IPv4 / IPv6 / IPv4-mapped exporters; hist: the C06 histories incl. v5 datagrams. Compared: every message column '
-        'except sampling_rate. non-trivial = a message with at least three columns; distinct by input')
-TRUSTED = ['Coq 8.16.1 kernel (coqc)', 'extraction + ocaml/main.ml glue', 'Go harness harness/pipe.go, bin/engine.py, bin/pipefam.py',
+        'except sampling_rate; doc table: every (column, version, element id) pair named by the field table of docs/protocols.md (re-read '
+        'on every run) must fill that column in a single-field message through the real pipe. '
+        'non-trivial = a message with at least three columns; distinct by input')
+TRUSTED = ['Coq 8.16.1 kernel (coqc), vm_compute in c08_doc_table_implemented (finite table)', 'translator bin/gen_doctable.py (docs/protocols.md -> Spec/DocTable.v)', 'extraction + ocaml/main.ml glue', 'Go harness harness/pipe.go, bin/engine.py, bin/pipefam.py',
            'modelled, not verified: producer/proto/producer_nf.go ConvertNetFlowDataSet, producer_nflegacy.go, proto.go enrichment']
 ASSUMPTIONS = ['Model/ProdNF.v corresponds to the producer, as swept exhaustively over (id, width, version) and sampled otherwise',
-               'the reference mapping is the model; the documented table is stated as theorems about it (Properties/C08.v)']
+               'the documentation table is read by bin/gen_doctable.py (last two cells of a row = NetFlow v9 / IPFIX, ids = integers in parentheses); prose outside the table is not interpreted']
 STREAMS = [dict(name='hist', stream=0, n=dict(quick=120, thorough=3000), timeout=120.0)]
 DOC = [1, 2] + list(range(4, 19)) + list(range(21, 25)) + list(range(27, 33)) + [47, 52, 54] + list(range(56, 61)) + \
       [62, 63, 70, 71, 72, 80, 81, 88, 89, 138, 139, 140] + list(range(150, 160)) + list(range(176, 180)) + [197, 312]
@@ -83,10 +85,52 @@ def multi_lines(rng, n):
     return lines
 
 
+def doc_table_part(chk, rng):
+    """the documentation table of the repository under check (translator bin/gen_doctable.py, theorem
+    c08_doc_table_implemented) against the IMPLEMENTATION: for every (column, version, element id) the table
+    names, a single-field message with that element is sent through the real pipe and must fill that column"""
+    import gen_doctable
+    try:
+        rows = [r for r in gen_doctable.parse(open(os.path.join(REPO, 'docs', 'protocols.md')).read()) if r[1] or r[2]]
+    except OSError:
+        rows = []
+    if not rows:
+        chk.record('doc', dict(concrete=False, what='the field table of docs/protocols.md was not found: Spec/DocTable.v is not tied to the documentation any more'), {})
+        return
+    names = sorted({r[0] for r in rows})
+    cols = dict(zip(names, model_run('C08T', ['col ' + n for n in names])))
+    pairs = [(n, 9, i) for n, a, b in rows for i in a] + [(n, 10, i) for n, a, b in rows for i in b]
+    touched = model_run('C08T', ['touch #%x #%x' % (v, i) for _, v, i in pairs])
+    lines, meta = [], []
+    for (n, ver, fid), mt in zip(pairs, touched):
+        col = cols.get(n, 'nocol')
+        for w in ([ADDR[fid]] if fid in ADDR else [1, 2, 4, 8]):
+            val = bytes(rng.randrange(1, 256) for _ in range(w))
+            d = nf_msg(ver, (1000, 1700000000, 7, 1), [(fid, w)], [val])
+            lines.append('pipe netflow none %s #%x =%s' % (EXPORTERS[0], 1700000000 * 10 ** 9, d.hex()))
+            meta.append((n, ver, fid, col, mt))
+    impl = impl_run(chk.harness, lines, timeout=60.0)
+    chk.evals += len(lines)
+    chk.count('documentation table pairs', len(pairs))
+    chk.exhaustive.append('every (column, version, element) pair of the field table of docs/protocols.md: %d pairs, %d single-field messages' % (len(pairs), len(lines)))
+    by = {}
+    for (n, ver, fid, col, mt), o in zip(meta, impl):
+        ok = any(col in [c for c, _ in m] for st in split_steps(o) for m in step_msgs(st)[2])
+        by.setdefault((n, ver, fid, col, mt), []).append(ok)
+    for (n, ver, fid, col, mt), oks in by.items():
+        if col == 'nocol' or not any(oks):
+            chk.record('doc', dict(concrete=True, input='docs/protocols.md row %s: %s element %d' % (n, 'NetFlow v9' if ver == 9 else 'IPFIX', fid),
+                       impl='no message column %s in any single-field message with element %d (widths tried: %d)' % (col, fid, len(oks)),
+                       model='the element writes columns ' + mt,
+                       what='the documentation table names an element for a column that the producer does not fill from it'), {})
+    chk.samples.append(dict(stream='doc-table', rows=len(rows), pairs=len(pairs), example=lines[0][:200], impl=impl[0][:200]))
+
+
 def run(chk):
     me = sys.modules[__name__]
     std_prepare(chk)
     run_streams(chk, me, STREAMS, {})
+    doc_table_part(chk, random.Random(chk.seed * 31 + 88))
     rng = random.Random(chk.seed * 31 + 8)
     sw = sweep_lines(rng)
     bad = run_scope_b(chk, me, sw, 'sweep', {}, timeout=120.0)
